@@ -16,7 +16,7 @@
    contiguous slice of the input lying inside the item; the harness additionally checks the real
    pointer ranges of the borrowed results at run time. *)
 From MC Require Import Bytes Monad Cbor Utf8 Decoder Acc Accessors DecoderFacts IntFacts
-  AccFacts AccAgreeFacts AccPrefixFacts AccBorrowFacts.
+  AccFacts AccAgreeFacts AccPrefixFacts AccBorrowFacts Encoder Types TypesEnc TypesFacts TypeSem TypeSemFacts TypeSemAgree TypeSemPrefix TypeSemRound TypeSemPos.
 Local Open Scope N_scope.
 
 (* 1. Every accessor, on every well-formed item (any head width, definite or indefinite), at any
@@ -151,3 +151,254 @@ Print Assumptions C04_utf8.
 Print Assumptions C04_utf8_str.
 Print Assumptions C04_prefix_acc.
 Print Assumptions C04_datatype.
+
+(* ------------------------------------------------------------------------------------------------------
+   7. The built-in *types* (every `Decode` impl of decode.rs / bytes.rs / data.rs, Model/Types.v decode_ty)
+   on EVERY well-formed encoding of an item — any head widths, definite or indefinite arrays / maps / strings,
+   any tags — not only on what the matching encoder writes (C01).
+
+   `spec_ty_at alloc t e` (Spec/TypeSem.v) is what the data model assigns to the tree e read as type t, by
+   recursion over the descriptor and the tree (no bytes, no positions, no fuel): `TXOk v k` (value v, k bytes
+   consumed: the whole item, or the head for a bare `Tag`), `TXErr` (shape mismatch or value not representable:
+   an error is required) or `TXAny` (unconstrained: f32/f64 on a narrower float item as for the accessors, and
+   items the decoder has to *skip* that skip() may refuse — text that is not UTF-8; without feature `alloc` an
+   indefinite array/map below a definite one).  alloc is the one feature the expectation depends on;
+   `spec_ty = spec_ty_at true` is what the correspondence check compares the real crate with (S= of DT cases).
+   `tag_top t`: no bare `Tag` below a container (it reads only a head, so the readers after it would start
+   inside the item); `whole_ty t`: no bare `Tag` at all.  `tagrees_at` / `tagrees` are `agrees_at` / `agrees`
+   for typed values; an error is `Err _`, never Panic / OutOfFuel.  The bound len (ser e) < 2^64 says the item
+   fits a usize-sized buffer (skip's counters).
+
+   OPEN RECORDS.  The decode_fields! types (Range*, SocketAddrV4/V6, Duration, SystemTime) are array-encoded records of
+   the documented derive wire format and ignore elements at indices they do not know; Bound::Unbounded ignores its
+   body (both deliberate: forward compatibility, the rule of property C10).  THE SPECIFICATION is therefore
+   spec_ty_lenient_at (open records) and the main theorems are C04_types_lenient / _lenient_auto / _lenient_position /
+   C04_types_position_any / C04_prefix_types_lenient / _at: ALL well-formed items, no exclusion.  spec_ty_at is the
+   closed-record reading (surplus elements are a shape mismatch); `lenient_hit t e` is the class of items on which the
+   two differ (real crate: Range<u8> on 83 01 02 03 -> Ok(1..2), Bound<i32> on 82 02 18 ff -> Ok(Unbounded), Duration on
+   9f 05 07 61 78 ff -> Ok(5.000000007s); the position is exactly the end of the item).  C04_types / _whole / _success /
+   _position / C04_prefix_types state the same for the closed reading outside that class, C04_types_strict_ty for every
+   descriptor without such types unconditionally; C04_types_open_record_example_* show the class is inhabited.  (A first
+   version took the closed reading for the specification and listed the difference as a candidate finding; that was a
+   false alarm of the specification, DESIGN.md 11.4.) *)
+Theorem C04_types : forall c t e r p L fuel,
+  tag_top t = true -> lenient_hit t e = false -> wf e = true -> p + len (ser e) <= L ->
+  len (ser e) < 18446744073709551616 -> (length (ser e ++ r) < fuel)%nat ->
+  tagrees_at (decode_ty c t fuel (mkdst p (ser e ++ r) L)) (spec_ty_at (c_alloc c) t e) p (ser e ++ r) L.
+Proof. exact types_strict_agree. Qed.
+
+(* the same in the form of C05 (what remains is r) for the descriptors that read a whole item *)
+Theorem C04_types_whole : forall c t e r p L fuel,
+  whole_ty t = true -> lenient_hit t e = false -> wf e = true -> p + len (ser e) <= L ->
+  len (ser e) < 18446744073709551616 -> (length (ser e ++ r) < fuel)%nat ->
+  tagrees (decode_ty c t fuel (mkdst p (ser e ++ r) L)) (spec_ty_at (c_alloc c) t e) p r L.
+Proof. exact types_strict_agree_whole. Qed.
+
+(* no exclusion at all for descriptors without decode_fields! types and Bound: integers, bool, char, floats,
+   NonZero*, strings, byte newtypes, (), Option, Vec-likes, [T; N], maps, tuples, Result / IpAddr, Tagged *)
+Theorem C04_types_strict_ty : forall c t e r p L fuel,
+  whole_ty t = true -> strict_ty t = true -> wf e = true -> p + len (ser e) <= L ->
+  len (ser e) < 18446744073709551616 -> (length (ser e ++ r) < fuel)%nat ->
+  tagrees (decode_ty c t fuel (mkdst p (ser e ++ r) L)) (spec_ty_at (c_alloc c) t e) p r L.
+Proof. exact types_strict_ty. Qed.
+
+Theorem C04_types_strict_ty_class : forall t, strict_ty t = true -> forall e, lenient_hit t e = false.
+Proof. exact strict_ty_no_hit. Qed.
+
+(* position: whenever the specification assigns a value, decoding returns it and the new state is exactly
+   the end of the item (no exclusion needed: on the lenient class the specification assigns no value) *)
+Theorem C04_types_position : forall c t e r p L fuel v k,
+  whole_ty t = true -> wf e = true -> p + len (ser e) <= L -> len (ser e) < 18446744073709551616 ->
+  (length (ser e ++ r) < fuel)%nat -> spec_ty_at (c_alloc c) t e = TXOk v k ->
+  decode_ty c t fuel (mkdst p (ser e ++ r) L) = (Ok v, mkdst (p + len (ser e)) r L) /\ k = len (ser e).
+Proof. exact types_strict_position. Qed.
+
+(* ... and conversely every success on a constrained combination outside the class is the specified value at
+   the end of the item ("never a different value", and never a value where an error is specified) *)
+Theorem C04_types_success : forall c t e r p L fuel v s',
+  whole_ty t = true -> lenient_hit t e = false -> wf e = true -> p + len (ser e) <= L ->
+  len (ser e) < 18446744073709551616 -> (length (ser e ++ r) < fuel)%nat -> spec_ty_at (c_alloc c) t e <> TXAny ->
+  decode_ty c t fuel (mkdst p (ser e ++ r) L) = (Ok v, s') ->
+  spec_ty_at (c_alloc c) t e = TXOk v (len (ser e)) /\ s' = mkdst (p + len (ser e)) r L.
+Proof. exact types_strict_success. Qed.
+
+(* MAIN THEOREM: every built-in type on ALL well-formed items against the specification (open records) *)
+Theorem C04_types_lenient : forall c t e r p L fuel,
+  tag_top t = true -> wf e = true -> p + len (ser e) <= L -> len (ser e) < 18446744073709551616 ->
+  (length (ser e ++ r) < fuel)%nat ->
+  tagrees_at (decode_ty c t fuel (mkdst p (ser e ++ r) L)) (spec_ty_lenient_at (c_alloc c) t e) p (ser e ++ r) L.
+Proof. exact types_agree. Qed.
+
+(* through the entry point the extracted model is run with (fuel = remaining bytes + 1) *)
+Theorem C04_types_lenient_auto : forall c t e r,
+  tag_top t = true -> wf e = true -> len (ser e ++ r) < 18446744073709551616 ->
+  tagrees_at (run (decode_auto c t) (ser e ++ r)) (spec_ty_lenient_at (c_alloc c) t e) 0 (ser e ++ r) (len (ser e ++ r)).
+Proof. exact types_agree_auto. Qed.
+
+(* even on the lenient class the position is exact: a success of a whole-item descriptor on any constrained
+   combination leaves the state at the end of the item *)
+Theorem C04_types_lenient_position : forall c t e r p L fuel v s',
+  whole_ty t = true -> wf e = true -> p + len (ser e) <= L -> len (ser e) < 18446744073709551616 ->
+  (length (ser e ++ r) < fuel)%nat -> spec_ty_lenient_at (c_alloc c) t e <> TXAny ->
+  decode_ty c t fuel (mkdst p (ser e ++ r) L) = (Ok v, s') ->
+  spec_ty_lenient_at (c_alloc c) t e = TXOk v (len (ser e)) /\ s' = mkdst (p + len (ser e)) r L.
+Proof. exact types_success. Qed.
+
+(* Position, unconditionally: whenever a whole-item descriptor succeeds on a well-formed item all of whose text is
+   valid UTF-8 (RFC 8949: a *valid* item), followed by anything, the new state is exactly the end of the item — also
+   where the value is not constrained here (float widening, TXAny) and on the lenient class (skipped surplus).
+   (utf8_ok only matters for items that are skipped: skip() validates text, C06.) *)
+Theorem C04_types_position_any : forall c t e r p L fuel v s',
+  whole_ty t = true -> wf e = true -> utf8_ok e = true -> p + len (ser e) <= L -> len (ser e) < 18446744073709551616 ->
+  (length (ser e ++ r) < fuel)%nat ->
+  decode_ty c t fuel (mkdst p (ser e ++ r) L) = (Ok v, s') -> s' = mkdst (p + len (ser e)) r L.
+Proof. exact types_position_any. Qed.
+
+Example C04_types_position_any_example :
+  let e := EArrayI [EF16 15360; EF32 0; EF64 1] in
+  wf e = true /\ spec_ty (TySeq TyF64) e = TXAny
+  /\ exists v, decode_ty cfg_full (TySeq TyF64) 30 (mkdst 2 (ser e ++ [1]) 30) = (Ok v, mkdst (2 + len (ser e)) [1] 30).
+Proof. vm_compute. repeat split. eexists. reflexivity. Qed.
+
+(* the class on which the open and the closed reading differ is inhabited: the closed reading says error, the
+   specification (and the model, and the real crate) the value of the known fields, at the end of the item *)
+Theorem C04_types_open_record_example_range :
+  let t := TyFields [TyU B8; TyU B8] in let e := EArray W0 [EUInt W0 1; EUInt W0 2; EUInt W0 3] in
+  wf e = true /\ lenient_hit t e = true /\ spec_ty t e = TXErr
+  /\ run (decode_auto cfg_full t) (ser e) = (Ok (VList [VNat 1; VNat 2]), mkdst 4 [] 4).
+Proof. exact lenient_refuted_range. Qed.
+
+Theorem C04_types_open_record_example_bound :
+  let t := TyBound (TyI B32) in let e := EArray W0 [EUInt W0 2; EUInt W1 255] in
+  wf e = true /\ lenient_hit t e = true /\ spec_ty t e = TXErr
+  /\ run (decode_auto cfg_full t) (ser e) = (Ok (VVar 2 VUnit), mkdst 4 [] 4).
+Proof. exact lenient_refuted_bound. Qed.
+
+Theorem C04_types_open_record_example_duration :
+  let e := EArrayI [EUInt W0 5; EUInt W0 7; EText W0 [120]] in
+  wf e = true /\ lenient_hit TyDuration e = true /\ spec_ty TyDuration e = TXErr
+  /\ run (decode_auto cfg_full TyDuration) (ser e) = (Ok (VList [VNat 5; VNat 7]), mkdst 6 [] 6).
+Proof. exact lenient_refuted_duration. Qed.
+
+(* 8. Every strict prefix of ANY well-formed encoding of an item to which the specification assigns a value, read
+   as that type, fails with the end-of-input class: never a value, never another class, never Panic / OutOfFuel.
+   k ranges over the bytes the decoder would consume (the whole item; the head for a bare `Tag`).  This generalises
+   C04_prefix_types_partial (Props/C01.v), which needs rt_ok and speaks about the bytes the matching encoder writes.
+   Feature alloc is assumed because items that are skipped go through skip(), whose build without alloc may answer
+   its documented unsupported-nesting error on a truncated nested item (C06_noalloc_prefix) before reaching the end. *)
+Theorem C04_prefix_types : forall c t e v n k fuel,
+  c_alloc c = true -> tag_top t = true -> wf e = true -> len (ser e) < 18446744073709551616 ->
+  spec_ty_at (c_alloc c) t e = TXOk v n -> N.of_nat k < n -> (k < fuel)%nat ->
+  exists q, decode_ty c t fuel (start (firstn k (ser e))) = (Err EndOfInput, q).
+Proof. exact types_strict_prefix. Qed.
+
+Theorem C04_prefix_types_auto : forall c t e v n k,
+  c_alloc c = true -> tag_top t = true -> wf e = true -> len (ser e) < 18446744073709551616 ->
+  spec_ty_at (c_alloc c) t e = TXOk v n -> N.of_nat k < n ->
+  exists q, run (decode_auto c t) (firstn k (ser e)) = (Err EndOfInput, q).
+Proof. exact types_strict_prefix_auto. Qed.
+
+(* the same on the lenient class (what the code does there), and anywhere in a buffer *)
+Theorem C04_prefix_types_lenient : forall c t e v n k fuel,
+  c_alloc c = true -> tag_top t = true -> wf e = true -> len (ser e) < 18446744073709551616 ->
+  spec_ty_lenient_at (c_alloc c) t e = TXOk v n -> N.of_nat k < n -> (k < fuel)%nat ->
+  exists q, decode_ty c t fuel (start (firstn k (ser e))) = (Err EndOfInput, q).
+Proof. exact types_prefix. Qed.
+
+Theorem C04_prefix_types_at : forall c t e v n l p L fuel,
+  c_alloc c = true -> whole_ty t = true -> wf e = true -> len (ser e) < 18446744073709551616 ->
+  spec_ty_lenient_at (c_alloc c) t e = TXOk v n -> sprefix l (ser e) -> p + len l <= L -> (length l < fuel)%nat ->
+  exists q, decode_ty c t fuel (mkdst p l L) = (Err EndOfInput, q).
+Proof. exact types_prefix_whole. Qed.
+
+(* link with the encoder side (C01, C03): the bytes the matching encoder writes for v, read as a tree e, are outside
+   the lenient class and the specification assigns them exactly v and the whole item — not an error, not another
+   value, not "unconstrained".  (rt_ok: no Option directly around an Option, where Some(None) is written as null.) *)
+Theorem C04_types_roundtrip_consistent : forall t v cs e,
+  ty_ok t = true -> rt_ok t = true -> whole_ty t = true -> encode_ty t v = Some cs ->
+  flat cs = ser e -> wf e = true -> len (ser e) < 18446744073709551616 ->
+  lenient_hit t e = false /\ spec_ty t e = TXOk v (len (ser e)).
+Proof. exact types_roundtrip_spec. Qed.
+
+Example C04_types_roundtrip_example :
+  match encode_ty rt_example_ty rt_example_val with
+  | Some cs => match one_item (flat cs) with
+               | Some e => spec_ty rt_example_ty e = TXOk rt_example_val (len (flat cs)) /\ lenient_hit rt_example_ty e = false
+               | None => False
+               end
+  | None => False
+  end.
+Proof. vm_compute. split; reflexivity. Qed.
+
+(* non-trivial instances.  BTreeMap<u16, Vec<Option<i8>>> from an indefinite map with 2-, 8-, 1- and 4-byte heads,
+   a definite and an indefinite array as values: {_ 1: [-6, null, 7], 300: [_ ]} *)
+Definition C04_ex_map : enc :=
+  EMapI [EUInt W2 1; EArray W1 [ENInt W1 5; ESimple 22; EUInt W4 7]; EUInt W8 300; EArrayI []].
+Definition C04_ex_map_ty : ty := TyMap (TyU B16) (TySeq (TyOpt (TyI B8))).
+
+Example C04_types_example_map :
+  wf C04_ex_map = true /\ whole_ty C04_ex_map_ty = true /\ strict_ty C04_ex_map_ty = true
+  /\ pref C04_ex_map = false /\ len (ser C04_ex_map) = 26
+  /\ spec_ty C04_ex_map_ty C04_ex_map
+     = TXOk (VList [VNat 1; VList [VSome (VInt (-6)); VNone; VSome (VInt 7)]; VNat 300; VList []]) 26
+  /\ decode_ty cfg_full C04_ex_map_ty 40 (mkdst 3 (ser C04_ex_map ++ [7]) 50)
+     = (Ok (VList [VNat 1; VList [VSome (VInt (-6)); VNone; VSome (VInt 7)]; VNat 300; VList []]), mkdst 29 [7] 50)
+  (* the same map read as BTreeMap<u8, _>: the key 300 is not representable *)
+  /\ spec_ty (TyMap (TyU B8) (TySeq (TyOpt (TyI B8)))) C04_ex_map = TXErr
+  /\ (exists q, run (decode_auto cfg_full (TyMap (TyU B8) (TySeq (TyOpt (TyI B8))))) (ser C04_ex_map) = (Err (Overflow 300), q)).
+Proof. vm_compute. repeat split. eexists. reflexivity. Qed.
+
+(* shapes: chunked text is refused by String (Decoder::str), a 3-array is not a 2-tuple, an indefinite 2-array is
+   not a 2-tuple but is a [u8; 2]; a Range is an array (definite or not) of exactly its fields; Bound::Unbounded is
+   [2, []]; f32 on an f16 item is not constrained here (C12) *)
+Example C04_types_example_shapes :
+  spec_ty TyStr ex_text = TXErr /\ wf ex_text = true
+  /\ (exists q, run (decode_auto cfg_full TyStr) (ser ex_text) = (Err (TypeMismatch TStringIndef), q))
+  /\ spec_ty TyStr (EText W4 [104; 105]) = TXOk (VBlob [104; 105]) 7
+  /\ spec_ty (TyTuple [TyU B8; TyU B8]) (EArray W0 [EUInt W0 1; EUInt W0 2; EUInt W0 3]) = TXErr
+  /\ (exists q, run (decode_auto cfg_full (TyTuple [TyU B8; TyU B8])) (ser (EArray W0 [EUInt W0 1; EUInt W0 2; EUInt W0 3])) = (Err Message, q))
+  /\ spec_ty (TyTuple [TyU B8; TyU B8]) (EArrayI [EUInt W0 1; EUInt W0 2]) = TXErr
+  /\ spec_ty (TyArr 2 (TyU B8)) (EArrayI [EUInt W0 1; EUInt W1 2]) = TXOk (VList [VNat 1; VNat 2]) 5
+  /\ spec_ty (TyArr 2 (TyU B8)) (EArray W0 [EUInt W0 1; EUInt W0 2; EUInt W0 3]) = TXErr
+  /\ spec_ty (TyFields [TyU B8; TyU B8]) (EArrayI [EUInt W4 1; EUInt W0 2]) = TXOk (VList [VNat 1; VNat 2]) 8
+  /\ run (decode_auto cfg_full (TyFields [TyU B8; TyU B8])) (ser (EArrayI [EUInt W4 1; EUInt W0 2]))
+     = (Ok (VList [VNat 1; VNat 2]), mkdst 8 [] 8)
+  /\ spec_ty (TyFields [TyU B8; TyU B8]) (EArray W0 [EUInt W0 1]) = TXErr
+  /\ spec_ty (TyFields [TyU B8; TyU B8]) (EArrayI [EUInt W0 1; EUInt W0 2; ETextI [(W0, [97])]]) = TXErr
+  /\ spec_ty_lenient (TyFields [TyU B8; TyU B8]) (EArrayI [EUInt W0 1; EUInt W0 2; ETextI [(W0, [97])]]) = TXOk (VList [VNat 1; VNat 2]) 8
+  /\ spec_ty (TyBound (TyI B32)) (EArray W1 [EUInt W1 2; EArrayI []]) = TXOk (VVar 2 VUnit) 6
+  /\ spec_ty (TyBound (TyI B32)) (EArray W1 [EUInt W1 2; EMapI []]) = TXErr
+  /\ spec_ty (TyOpt (TyOpt TyBool)) (ESimple 22) = TXOk VNone 1
+  /\ spec_ty (TyOpt TyBool) (ESimple 23) = TXErr
+  /\ spec_ty (TyTagged 7 TyBool) (ETag W2 7 (ESimple 21)) = TXOk (VBool true) 4
+  /\ spec_ty TyTag (ETag W2 7 (ESimple 21)) = TXOk (VNat 7) 3
+  /\ spec_ty TyF32 (EF16 15360) = TXAny
+  /\ spec_ty_lenient (TyFields [TyU B8]) (EArray W0 [EUInt W0 1; EText W0 [255]]) = TXAny
+  /\ spec_ty_lenient_at false (TyBound TyBool) (EArray W0 [EUInt W0 2; EArray W0 [EArrayI []]]) = TXAny
+  /\ spec_ty_lenient_at true (TyBound TyBool) (EArray W0 [EUInt W0 2; EArray W0 [EArrayI []]]) = TXOk (VVar 2 VUnit) 5.
+Proof. vm_compute. repeat split; eexists; reflexivity. Qed.
+
+Example C04_prefix_types_example :
+  forallb (fun k => match run (decode_auto cfg_full C04_ex_map_ty) (firstn k (ser C04_ex_map)) with
+                    | (Err EndOfInput, _) => true | _ => false end) (seq 0 (length (ser C04_ex_map))) = true
+  /\ length (ser C04_ex_map) = 26%nat.
+Proof. vm_compute. split; reflexivity. Qed.
+
+Print Assumptions C04_types.
+Print Assumptions C04_types_whole.
+Print Assumptions C04_types_strict_ty.
+Print Assumptions C04_types_strict_ty_class.
+Print Assumptions C04_types_position.
+Print Assumptions C04_types_success.
+Print Assumptions C04_types_position_any.
+Print Assumptions C04_types_lenient.
+Print Assumptions C04_types_lenient_auto.
+Print Assumptions C04_types_lenient_position.
+Print Assumptions C04_types_open_record_example_range.
+Print Assumptions C04_types_open_record_example_bound.
+Print Assumptions C04_types_open_record_example_duration.
+Print Assumptions C04_types_roundtrip_consistent.
+Print Assumptions C04_prefix_types.
+Print Assumptions C04_prefix_types_auto.
+Print Assumptions C04_prefix_types_lenient.
+Print Assumptions C04_prefix_types_at.
